@@ -144,7 +144,16 @@ func (w *Worker) compareToRef(out *CLIOutcome, wl *Workload, visits []simapi.Vis
 		ref = [][]Diag{all}
 	}
 	for i, vis := range visits {
-		got, other := diagsOfVisit(out, i, vis.Pkg)
+		got, printed := diagsOfVisit(out, i, vis.Pkg)
+		// Lines that are not diagnostics (a summary, a progress or debug line a front-end may
+		// print) are not judged: whether they belong to a file cannot be known. Only what a
+		// crashing checker prints counts.
+		var other []string
+		for _, l := range printed {
+			if strings.Contains(l, ": error: ") || strings.Contains(l, "panic") {
+				other = append(other, l)
+			}
+		}
 		if len(ref[i]) > 0 {
 			anyRef = true
 		}
